@@ -1,5 +1,10 @@
 package main
 
+import (
+	"fmt"
+	"strings"
+)
+
 // C09 additions to the ledger generator (the pending set): the domain rules that keep generated
 // deliveries inside what a node relays, and the counted classes of pending-set situations.
 
@@ -97,4 +102,144 @@ func (l *ledGen) countRecv(t *gTx) {
 	if nf > 0 && nf < len(t.ins) {
 		l.g.Stats["recvtx-mixed-inputs"]++
 	}
+	if l.conflictsStaleChain(t) {
+		l.g.Stats["recvtx-conflicts-stale-chain-random"]++ // the random stream reaches the situation too (lazy histories)
+	}
+}
+
+// ---------------------------------------------------------------- lagging wallet, conflicting delivery (round 5)
+//
+// The wallet's stored chain still holds a block the node has reorganised away; a transaction that spends a coin
+// which a transaction of that stale block spent is valid on the node's tip and is delivered (the real gate in
+// proccessReceivedTx lets it through while the wallet is at most one block lower than the node). The follower
+// records it although, on the wallet's lagging chain, its conflict still looks confirmed: TRANSIENT while lagging.
+// When the wallet catches up the stale transaction is un-confirmed and both are pending, mutually conflicting;
+// whichever confirms purges the other (replayed on the real code: notes/C09.md, Round 5). The comparison is made
+// while lagging and again at the caught-up point. No re-announcement of a stale block in between: the
+// specification's settle step against the stale chain would drop the delivered transaction (notes/C09.md,
+// Round 4/5, corpus-candidates/C09-stale-notify-conflict.ops).
+
+// staleSpent: the outpoints spent by non-coinbase transactions of blocks that are on the wallet's chain but no
+// longer on the node's
+func (l *ledGen) staleSpent() map[string]bool {
+	m := map[string]bool{}
+	for h, name := range l.synced {
+		if h < len(l.chain) && l.chain[h] == name {
+			continue
+		}
+		for _, t := range l.blocks[name].txs {
+			for _, c := range t.ins {
+				m[c.key()] = true
+			}
+		}
+	}
+	return m
+}
+
+func (l *ledGen) conflictsStaleChain(t *gTx) bool {
+	m := l.staleSpent()
+	for _, c := range t.ins {
+		if m[c.key()] {
+			return true
+		}
+	}
+	return false
+}
+
+// blockWith: a block on `parent` holding a coinbase and exactly the given transactions (all valid there)
+func (l *ledGen) blockWith(parent string, txs []*gTx) *gBlock {
+	pb := l.blocks[parent]
+	l.nBlk++
+	b := &gBlock{name: fmt.Sprintf("B%d", l.nBlk), parent: parent, height: pb.height + 1, utxo: map[string]gCoin{}}
+	for k, v := range pb.utxo {
+		b.utxo[k] = v
+	}
+	l.nTx++
+	cb := &gTx{name: fmt.Sprintf("C%d", l.nTx), cb: true}
+	cb.outs = append(cb.outs, fmt.Sprintf("%s:%d", l.anyDest(), (100+l.r.Int63n(900))*1000000))
+	cb.line = fmt.Sprintf("tx %s %d cb %s", cb.name, l.nTx, strings.Join(cb.outs, ";"))
+	l.define(cb)
+	applyTx(b.utxo, cb, b.height)
+	b.txs = append(b.txs, cb)
+	names := []string{cb.name}
+	for _, t := range txs {
+		if applyTx(b.utxo, t, b.height) {
+			b.txs = append(b.txs, t)
+			names = append(names, t.name)
+			l.countBlockTx(t)
+		}
+	}
+	var np []*gTx
+	for _, p := range l.pool {
+		in := false
+		for _, t := range b.txs {
+			if t.name == p.name {
+				in = true
+			}
+		}
+		if !in {
+			np = append(np, p)
+		}
+	}
+	l.pool = np
+	l.blocks[b.name] = b
+	l.op("block", "block %s %s %s", b.name, parent, strings.Join(names, ";"))
+	return b
+}
+
+// staleConflict: the directed form of the situation above.
+//
+//	wallet caught up · block with T1 (spends a wallet coin c) connected and notified · the node reorganises that
+//	block away and builds two blocks the wallet is not told about yet · T2 (spends c) delivered · compare ·
+//	catch up · compare · (the ordinary stream continues: T1 is a re-mining candidate, T2 a pool transaction)
+func (l *ledGen) staleConflict() {
+	l.drain()
+	if !l.walletOnBestChain() || len(l.synced) != len(l.chain) {
+		return
+	}
+	var own []gCoin
+	for _, c := range sortedCoins(l.tip().utxo) {
+		// the coin must stay spendable two blocks higher as well
+		if l.owner[c.addr] != "" && c.cls == "std" && c.amt > 0 && l.spendableIn(c, l.tip().height+1) {
+			own = append(own, c)
+		}
+	}
+	if len(own) == 0 {
+		return
+	}
+	c := own[l.r.Intn(len(own))]
+	t1 := l.makeTx([]gCoin{c}, "")
+	l.define(t1)
+	b := l.blockWith(l.tip().name, []*gTx{t1})
+	l.op("submit", "submit %s", b.name)
+	l.chain = append(l.chain, b.name)
+	l.markDead()
+	l.noteNotify(b.name)
+	l.op("notify", "notify %s", b.name)
+	// the node reorganises the block away
+	l.countUndone(b)
+	l.orphanT = append(l.orphanT, t1)
+	l.g.Stats["reorg-unconfirms-tx"]++
+	l.op("detach", "detach")
+	l.chain = l.chain[:len(l.chain)-1]
+	for i := 0; i < 2; i++ {
+		nb := l.blockWith(l.tip().name, nil)
+		l.op("submit", "submit %s", nb.name)
+		l.chain = append(l.chain, nb.name)
+		l.queue = append(l.queue, nb.name)
+		l.markDead()
+	}
+	l.g.Stats["reorg-depth-1"]++
+	l.g.Stats["reorg-connects>=2"]++
+	// T2 spends the same coin: valid on the node's tip, in conflict with the wallet's stale chain
+	t2 := l.makeTx([]gCoin{c}, "")
+	l.define(t2)
+	l.pool = append(l.pool, t2)
+	l.op("recvtx-conflicts-stale-chain", "recvtx %s", t2.name)
+	l.observe(true) // transient: compared while lagging
+	l.drain()
+	if l.walletOnBestChain() && len(l.synced) == len(l.chain) {
+		l.g.Stats["caught-up-after-stale-conflict"]++
+	}
+	l.observe(true) // ... and at the caught-up point: T1 and T2 both pending
 }
